@@ -21,6 +21,8 @@ pub struct Job {
     pub death: Death,
     /// exit codes that mean "sanitizer report" (TSan 66, ASan 1 with report text ...)
     pub report_codes: Vec<i32>,
+    /// appended to death / sanitizer signatures (e.g. the program family) so that known findings stay specific
+    pub sig_suffix: String,
 }
 
 #[derive(Clone, Debug, PartialEq)]
@@ -43,6 +45,7 @@ impl Job {
             timeout_s: 600,
             death: Death::Violation,
             report_codes: vec![],
+            sig_suffix: String::new(),
         }
     }
 }
@@ -290,11 +293,11 @@ pub fn merge_child(m: &mut Merged, job: &Job, r: ChildResult, prop: &str) {
         return;
     }
     if let Some(c) = r.code {
-        if job.report_codes.contains(&c) {
+        if job.report_codes.contains(&c) && !crate::sanit::classify(&r.stderr).starts_with("unknown") {
             // sanitizer report: engine-specific parser handles stderr; pass it up as a violation candidate
             m.viols.push(Viol {
                 prop: prop.to_string(),
-                sig: format!("sanitizer-report:{}", crate::sanit::classify(&r.stderr)),
+                sig: format!("sanitizer-report:{}{}", crate::sanit::classify(&r.stderr), job.sig_suffix),
                 detail: crate::jobj!("stderr_tail" => tail(&r.stderr, 60), "last_case" => last_at.clone(), "exit" => c),
                 job: job.label.clone(),
                 argv: job.args.clone(),
@@ -315,7 +318,7 @@ pub fn merge_child(m: &mut Merged, job: &Job, r: ChildResult, prop: &str) {
             };
             m.viols.push(Viol {
                 prop: prop.to_string(),
-                sig: format!("child-died:{}", what),
+                sig: format!("child-died:{}{}", what, job.sig_suffix),
                 detail: crate::jobj!("last_case" => last_at, "stderr_tail" => tail(&r.stderr, 25)),
                 job: job.label.clone(),
                 argv: job.args.clone(),
